@@ -40,6 +40,9 @@ class _RecCf:
         self.cbs.append((port, cb))
 
     def send_packet(self, pk, expected_reply=(), resend=False, timeout=0.2):
+        # the one thing Crazyflie.send_packet does before handing a packet to the link: the packet's own size check
+        if not pk.is_data_size_valid():
+            raise Exception('Data part of packet is too large')
         self.sent.append(pk)
         self.snap.append((pk, pk.header, bytes(pk.data)))     # the attribute, as the link drivers read it
 
@@ -216,6 +219,11 @@ def _expect(cmd, a, version, xmode):
         return ('pk', 6, 1, [_u8(2), _u8(a[0]), _u8(2), _u8(a[1])])
     if cmd == 'lpp_mode':
         return ('pk', 6, 1, [_u8(2), _u8(a[0]), _u8(3), _u8(a[1])])
+    if cmd == 'lpp_raw':
+        dest, n = a
+        if 2 + n > 30:
+            return ('raise',)       # does not fit the 30 payload bytes of a packet
+        return ('pk', 6, 1, [_u8(2), _u8(dest)] + [_u8((7 * k + 1) & 0xff) for k in range(n)])
     raise AssertionError(cmd)
 
 
@@ -279,6 +287,8 @@ def _call(cf, cmd, a):
         return anchor.reboot(a[0], a[1])
     if cmd == 'lpp_mode':
         return anchor.set_mode(a[0], a[1])
+    if cmd == 'lpp_raw':
+        return cf.loc.send_short_lpp_packet(a[0], bytes((7 * k + 1) & 0xff for k in range(a[1])))
     raise AssertionError(cmd)
 
 
@@ -519,6 +529,7 @@ def _args(cmd):
         'lh_persist': T(_bs, _bs),
         'arming': T(_b), 'crash_recovery': T(),
         'lpp_position': T(_u8s, f, f, f), 'lpp_reboot': T(_u8s, _u8s), 'lpp_mode': T(_u8s, _u8s),
+        'lpp_raw': T(_u8s, st.sampled_from([0, 1, 27, 28, 28, 29, 29, 30, 40])),
     }
     return m[cmd]
 
@@ -526,7 +537,7 @@ def _args(cmd):
 CMDS = ['setpoint', 'notify_stop', 'stop_setpoint', 'velocity_world', 'zdistance', 'hover', 'position', 'full_state', 'hl_group_mask',
         'hl_takeoff', 'hl_land', 'hl_stop', 'hl_goto', 'hl_spiral', 'hl_start_traj', 'hl_define_traj', 'extpos', 'loc_extpos', 'extpose',
         'loc_extpose', 'emergency_stop', 'emergency_watchdog', 'lh_persist', 'arming', 'crash_recovery', 'lpp_position', 'lpp_reboot',
-        'lpp_mode']
+        'lpp_mode', 'lpp_raw']
 WEIGHTED = CMDS + ['setpoint', 'velocity_world', 'zdistance', 'hover', 'full_state', 'hl_goto', 'hl_spiral', 'hl_takeoff', 'hl_land'] * 2
 
 
